@@ -9,7 +9,7 @@
    both sides call oisect_g.  Proved for every type of stamps with its < and == (no law needed), every state, every batch.
    This file is re-checked against the regenerated text on every build: a class that drifts away from its siblings breaks its lemma. *)
 From Coq Require Import List Bool Arith ZArith Lia.
-From RV Require Import Val Syntax Rho Online Dense DenseMerge PySem PyDense DenseMergeCorrect DenseOnlineMerge DenseOnlineMergeCorrect DenseOnlineFold DenseOnlineMon
+From RV Require Import Val Syntax Rho Online IA Dense DenseMerge DenseEval PySem PyDense DenseMergeCorrect DenseOnlineMerge DenseOnlineMergeCorrect DenseOnlineFold DenseOnlineMon
   DenseOnlineGen.
 Import ListNotations.
 Local Open Scope Z_scope.
@@ -497,6 +497,237 @@ Proof. rewrite gen_Pow_update_ok. destruct (bin_update_g T tltb teqb (a2 AR Pow)
 Lemma gen_Log_sim st b1 b2 : sim Log_abs (gen_Log_update AR T tltb teqb st b1 b2) = bin_update_g T tltb teqb (a2 AR Log) (Log_abs st) b1 b2.
 Proof. rewrite gen_Log_update_ok. destruct (bin_update_g T tltb teqb (a2 AR Log) (Log_abs st) b1 b2) as [[[l r lo] o]|]; reflexivity. Qed.
 
+
+(* ================================================================== *)
+(* since[a,b]: the composition of its four sub-objects                 *)
+(* ================================================================== *)
+(* since_timed_operation.py calls update() of four objects of translated classes.  The hand model since_timed_update_g is generic in the
+   model [WS], [wonce], [whist] of the two bounded operations: given ANY abstraction of the generated once_timed / historically_timed
+   classes to such a model that commutes with update on the states satisfying an invariant (DenseOnlineGenWinCorrect.v provides it for the
+   stamps tz), the generated SinceTimed.update is since_timed_update_g. *)
+Section SinceTimed.
+Variables (tadd : T -> Z -> T) (tzero : T).
+Variable WS : Type.
+Variables wonce whist : WS -> psig -> option (WS * psig).
+Variable absO : OnceTimed_state T -> WS.
+Variable absH : HistoricallyTimed_state T -> WS.
+Variable PO : OnceTimed_state T -> Prop.
+Variable PH : HistoricallyTimed_state T -> Prop.
+Hypothesis HO : forall st s, PO st ->
+  option_map (fun p => (absO (fst p), snd p)) (gen_OnceTimed_update AR T tltb teqb tadd tzero st s) = wonce (absO st) s.
+Hypothesis HH : forall st s, PH st ->
+  option_map (fun p => (absH (fst p), snd p)) (gen_HistoricallyTimed_update AR T tltb teqb tadd tzero st s) = whist (absH st) s.
+
+Definition SinceTimed_abs (st : SinceTimed_state T) : @ststate VS T WS :=
+  {| st_lbuf := SinceTimed_sample_left_buf st; st_rbuf := SinceTimed_sample_right_buf st; st_since := Since_abs (SinceTimed_since st);
+     st_hist := absH (SinceTimed_hist st); st_once := absO (SinceTimed_once st); st_and := And_abs (SinceTimed_andop st) |}.
+
+Lemma gen_SinceTimed_update_ok st l r : PO (SinceTimed_once st) -> PH (SinceTimed_hist st) ->
+  option_map (fun p => (SinceTimed_abs (fst p), snd p)) (gen_SinceTimed_update AR T tltb teqb tadd tzero st l r)
+  = since_timed_update_g T tltb teqb WS wonce whist (SinceTimed_abs st) l r.
+Proof.
+  intros HPO HPH. unfold gen_SinceTimed_update, since_timed_update_g, SinceTimed_abs. cbn [st_lbuf st_rbuf st_since st_hist st_once st_and]. cbv zeta.
+  unfold PyDense.psig, PyDense.psample in *.
+  rewrite <- (HO _ r HPO).
+  destruct (gen_OnceTimed_update AR T tltb teqb tadd tzero (SinceTimed_once st) r) as [[once' out1]|]; [|reflexivity].
+  cbn [option_map fst snd]. rewrite gen_Since_update_ok. unfold PyDense.psig, PyDense.psample in *.
+  destruct (since_update T tltb (Since_abs (SinceTimed_since st)) (l, r)) as [[since' out2]|]; [|reflexivity].
+  rewrite <- (HH _ out2 HPH).
+  destruct (gen_HistoricallyTimed_update AR T tltb teqb tadd tzero (SinceTimed_hist st) out2) as [[hist' out3]|]; [|reflexivity].
+  cbn [option_map fst snd]. rewrite <- gen_And_sim.
+  destruct (gen_And_update AR T tltb teqb (SinceTimed_andop st) out1 out3) as [[and' res]|]; [|reflexivity].
+  cbn [option_map fst snd]. destruct since' as [a b c d]. reflexivity.
+Qed.
+
+(* the fields begin / end are never written; the sub-objects of the new state are those the four updates return *)
+Lemma gen_SinceTimed_update_bounds st l r st' o :
+  gen_SinceTimed_update AR T tltb teqb tadd tzero st l r = Some (st', o) -> SinceTimed_begin st' = SinceTimed_begin st /\ SinceTimed_end st' = SinceTimed_end st.
+Proof.
+  unfold gen_SinceTimed_update. cbv zeta.
+  destruct (gen_OnceTimed_update AR T tltb teqb tadd tzero (SinceTimed_once st) r) as [[once' out1]|]; [|discriminate].
+  destruct (gen_Since_update AR T tltb teqb (SinceTimed_since st) l r) as [[since' out2]|]; [|discriminate].
+  destruct (gen_HistoricallyTimed_update AR T tltb teqb tadd tzero (SinceTimed_hist st) out2) as [[hist' out3]|]; [|discriminate].
+  destruct (gen_And_update AR T tltb teqb (SinceTimed_andop st) out1 out3) as [[and' res]|]; [|discriminate].
+  intros E. injection E as <- <-. split; reflexivity.
+Qed.
+End SinceTimed.
+
+(* ================================================================== *)
+(* constant                                                            *)
+(* ================================================================== *)
+(* constant_operation.py: [[0, val], [inf, val]] at the first update, [] afterwards; generic in the stamps 0 and inf *)
+Lemma gen_Constant_update_gen (tzero tinf : T) (st : Constant_state T) :
+  gen_Constant_update AR T tltb teqb tzero tinf st =
+  Some (mk_Constant_state (Constant_val st) false,
+        if Constant_is_first_sample st then [(tzero, Constant_val st); (tinf, Constant_val st)] else []).
+Proof. unfold gen_Constant_update. destruct st as [v [|]]; reflexivity. Qed.
+
+
+(* ================================================================== *)
+(* predicate (STL and IA-STL)                                          *)
+(* ================================================================== *)
+Lemma py_for_map (g : V -> V) (body : psample -> psig -> option psig) :
+  (forall i acc, body i acc = Some (acc ++ [(fst i, g (snd i))])) ->
+  forall s acc, py_for s body acc = Some (acc ++ map (fun i => (fst i, g (snd i))) s).
+Proof.
+  intros Hb s. induction s as [|[t v] r IH]; intros acc.
+  - cbn. rewrite app_nil_r. reflexivity.
+  - cbn [py_for map]. rewrite Hb. cbn [fst snd]. rewrite IH, <- app_assoc. reflexivity.
+Qed.
+
+Definition Predicate_abs (st : Predicate_state T) : @pstate VS T :=
+  {| p_sub := Subtraction_abs (Predicate_sub st); p_subout := Predicate_subtraction_output st |}.
+
+(* predicate_operation.py update(): the difference through SubtractionOperation.update, then the robustness of the comparison;
+   the final `else: out_val = float('nan')` of the code is dead (the generated text answers None there: nv_get) *)
+Lemma gen_Predicate_update_ok st l r :
+  option_map (fun p => (Predicate_abs (fst p), snd p)) (gen_Predicate_update AR T tltb teqb st l r)
+  = pred_update_g AR T tltb teqb (Predicate_comparison_op st) (Predicate_abs st) l r.
+Proof.
+  unfold gen_Predicate_update, pred_update_g, Predicate_abs. cbn [p_sub p_subout]. cbv zeta.
+  rewrite <- gen_Subtraction_sim.
+  destruct (gen_Subtraction_update AR T tltb teqb (Predicate_sub st) l r) as [[sub' il]|]; [|reflexivity].
+  cbn [option_map fst snd].
+  rewrite (py_for_map (pred_of_diff AR (Predicate_comparison_op st))).
+  - reflexivity.
+  - intros [t v] acc. destruct (Predicate_comparison_op st); reflexivity.
+Qed.
+Lemma gen_Predicate_update_op st l r st' o :
+  gen_Predicate_update AR T tltb teqb st l r = Some (st', o) -> Predicate_comparison_op st' = Predicate_comparison_op st.
+Proof.
+  unfold gen_Predicate_update. cbv zeta.
+  destruct (gen_Subtraction_update AR T tltb teqb (Predicate_sub st) l r) as [[sub' il]|]; [|discriminate].
+  match goal with |- context [py_for ?s ?b ?a] => destruct (py_for s b a) end; [|discriminate].
+  intros E. injection E as <- _. reflexivity.
+Qed.
+
+(* Python's == 0 / <= 0 / >= 0 on values, as the hand model sat_online writes them *)
+Lemma veq_veqb (x y : V) : veq x y = veqb x y.
+Proof.
+  unfold veq, veqb. destruct (v_eq_dec x y) as [->|N].
+  - rewrite leb_refl. reflexivity.
+  - destruct (leb x y) eqn:E1; [|reflexivity]. destruct (leb y x) eqn:E2; [|reflexivity].
+    exfalso. apply N. apply leb_antisym; assumption.
+Qed.
+
+(* the loop of sat(): for i, in_sample in enumerate(input_list) *)
+Lemma py_for_sat (c : cmp) (n : Z) (body : Z * psample -> option V * list (T * bool) -> option (option V * list (T * bool))) :
+  (forall i t x prev acc, body (i, (t, x)) (prev, acc) =
+     Some (Some (pred_of_diff AR c x),
+           if nv_neq (pred_of_diff AR c x) prev || (i =? n - 1) then acc ++ [(t, sat_online AR c x)] else acc)) ->
+  forall l k prev acc, Z.of_nat (k + length l) = n ->
+    py_for (combine (map Z.of_nat (seq k (length l))) l) body (prev, acc)
+    = Some (match rev l with [] => prev | (_, x) :: _ => Some (pred_of_diff AR c x) end, acc ++ sat_scan AR T c prev l).
+Proof.
+  intros Hb l. induction l as [|[t x] r IH]; intros k prev acc Hn.
+  - cbn. rewrite app_nil_r. reflexivity.
+  - cbn [length seq map combine py_for]. rewrite Hb.
+    rewrite (IH (S k)) by (cbn [length] in Hn; lia).
+    cbn [sat_scan]. f_equal. f_equal.
+    + cbn [rev]. destruct (rev r) as [|[t' x'] rr]; reflexivity.
+    + unfold nv_neq.
+      assert (El : (Z.of_nat k =? n - 1) = match r with [] => true | _ => false end).
+      { destruct r as [|q r']; cbn [length] in Hn; [apply Z.eqb_eq|apply Z.eqb_neq]; lia. }
+      rewrite El.
+      destruct (match prev with Some p => negb (veq (pred_of_diff AR c x) p) | None => true end || match r with [] => true | _ => false end);
+        rewrite <- ?app_assoc; reflexivity.
+Qed.
+
+Lemma gen_Predicate_sat_ok st l r :
+  gen_Predicate_sat AR T tltb teqb st l r
+  = Some (st, sat_scan AR T (Predicate_comparison_op st) None (Predicate_subtraction_output st)).
+Proof.
+  destruct st as [sub c so]. unfold gen_Predicate_sat. cbn [Predicate_sub Predicate_comparison_op Predicate_subtraction_output]. cbv zeta.
+  unfold py_enumerate.
+  rewrite (py_for_sat c (py_len so)).
+  - reflexivity.
+  - intros i t x prev acc. cbn [fst snd]. rewrite !veq_veqb.
+    destruct c; cbn [cmp_eqb pred_of_diff sat_online orb]; unfold ltb; rewrite ?negb_involutive;
+      try (destruct (veqb x (azero AR)); cbn [negb]);
+      try (destruct (leb x (azero AR)); cbn [negb]);
+      try (destruct (leb (azero AR) x); cbn [negb]);
+      match goal with |- context [nv_neq ?a ?b || ?d] => destruct (nv_neq a b || d) end; reflexivity.
+  - unfold py_len. cbn. reflexivity.
+Qed.
+
+(* iastl/.../predicate_operation.py: which reading of the predicate the attributes select *)
+Definition ia_kind (sem : semantics) (in_vars out_vars : list nat) : pkind :=
+  if (sem_eqb sem OutputRobustness && negb (py_truthy out_vars)) || (sem_eqb sem InputRobustness && negb (py_truthy in_vars)) then PBool
+  else if (sem_eqb sem InputVacuity && negb (py_truthy in_vars)) || (sem_eqb sem OutputVacuity && negb (py_truthy out_vars)) then PVac
+  else PStd.
+
+(* for i in range(len(l)): out.append([l[i][0], h(l[i][1])]) *)
+Lemma py_get_app_mid {A : Type} (pre : list A) (x : A) (post : list A) : py_get (pre ++ x :: post) (Z.of_nat (length pre)) = Some x.
+Proof.
+  unfold py_get, py_len. rewrite app_length. cbn [length].
+  destruct (Z.of_nat (length pre) <? 0) eqn:E0; [apply Z.ltb_lt in E0; lia|].
+  destruct (0 <=? Z.of_nat (length pre)) eqn:E1; [|apply Z.leb_gt in E1; lia].
+  destruct (Z.of_nat (length pre) <? Z.of_nat (length pre + S (length post))) eqn:E2; [|apply Z.ltb_ge in E2; lia].
+  cbn [andb]. rewrite Nat2Z.id, nth_error_app2 by lia. rewrite Nat.sub_diag. reflexivity.
+Qed.
+
+Lemma py_for_range_map {B : Type} (h : B -> V) (body : Z -> psig -> option psig) (full : list (T * B)) :
+  (forall i acc, body i acc = (t <- py_get full i ;; Some (acc ++ [(fst t, h (snd t))]))) ->
+  forall post pre acc, full = pre ++ post ->
+    py_for (map (fun k => 0 + Z.of_nat k) (seq (length pre) (length post))) body acc
+    = Some (acc ++ map (fun q => (fst q, h (snd q))) post).
+Proof.
+  intros Hb post. induction post as [|[t b] r IH]; intros pre acc E.
+  - cbn. rewrite app_nil_r. reflexivity.
+  - cbn [length seq map py_for]. rewrite Hb. replace (0 + Z.of_nat (length pre)) with (Z.of_nat (length pre)) by lia.
+    rewrite E, py_get_app_mid. cbn [fst snd].
+    specialize (IH (pre ++ [(t, b)]) (acc ++ [(t, h b)])).
+    rewrite app_length in IH. cbn [length] in IH. rewrite Nat.add_1_r in IH.
+    rewrite IH by (rewrite E, <- app_assoc; reflexivity).
+    rewrite <- app_assoc. reflexivity.
+Qed.
+
+Definition IAPredicate_abs (st : IAPredicate_state T) : @pstate VS T := Predicate_abs (IAPredicate_base st).
+
+Lemma gen_IAPredicate_update_ok st l r :
+  option_map (fun p => (IAPredicate_abs (fst p), snd p)) (gen_IAPredicate_update AR T tltb teqb st l r)
+  = pred_update_ia AR T tltb teqb (ia_kind (IAPredicate_semantics st) (IAPredicate_in_vars st) (IAPredicate_out_vars st))
+      (Predicate_comparison_op (IAPredicate_base st)) (IAPredicate_abs st) l r.
+Proof.
+  unfold gen_IAPredicate_update, pred_update_ia, IAPredicate_abs. cbv zeta.
+  rewrite <- gen_Predicate_update_ok.
+  destruct (gen_Predicate_update AR T tltb teqb (IAPredicate_base st) l r) as [[base' samples]|] eqn:EU; [|reflexivity].
+  cbn [option_map fst snd]. rewrite gen_Predicate_sat_ok.
+  rewrite (gen_Predicate_update_op _ _ _ _ _ EU).
+  unfold ia_kind, Predicate_abs at 2. cbn [p_subout].
+  set (sat := sat_scan AR T (Predicate_comparison_op (IAPredicate_base st)) None (Predicate_subtraction_output base')).
+  destruct ((sem_eqb (IAPredicate_semantics st) OutputRobustness && negb (py_truthy (IAPredicate_out_vars st)))
+            || (sem_eqb (IAPredicate_semantics st) InputRobustness && negb (py_truthy (IAPredicate_in_vars st)))) eqn:E1.
+  - unfold py_range. replace (Z.to_nat (py_len sat - 0)) with (length sat) by (unfold py_len; lia).
+    rewrite (py_for_range_map (fun b : bool => if Bool.eqb b true then top else bot) _ sat) with (pre := []) by (try reflexivity; intros i acc; destruct (py_get sat i); reflexivity).
+    cbn [app option_map fst snd IAPredicate_base]. f_equal. f_equal. apply map_ext. intros [t [|]]; reflexivity.
+  - destruct ((sem_eqb (IAPredicate_semantics st) InputVacuity && negb (py_truthy (IAPredicate_in_vars st)))
+              || (sem_eqb (IAPredicate_semantics st) OutputVacuity && negb (py_truthy (IAPredicate_out_vars st)))) eqn:E2.
+    + unfold py_range. replace (Z.to_nat (py_len sat - 0)) with (length sat) by (unfold py_len; lia).
+      rewrite (py_for_range_map (fun _ : bool => azero AR) _ sat) with (pre := []) by (try reflexivity; intros i acc; destruct (py_get sat i); reflexivity).
+      reflexivity.
+    + reflexivity.
+Qed.
+
+(* the attributes semantics / in_vars / out_vars and the comparison are never written *)
+Lemma gen_IAPredicate_update_frame st l r st' o :
+  gen_IAPredicate_update AR T tltb teqb st l r = Some (st', o) ->
+  IAPredicate_semantics st' = IAPredicate_semantics st /\ IAPredicate_in_vars st' = IAPredicate_in_vars st /\
+  IAPredicate_out_vars st' = IAPredicate_out_vars st /\
+  Predicate_comparison_op (IAPredicate_base st') = Predicate_comparison_op (IAPredicate_base st).
+Proof.
+  unfold gen_IAPredicate_update. cbv zeta.
+  destruct (gen_Predicate_update AR T tltb teqb (IAPredicate_base st) l r) as [[base' samples]|] eqn:EU; [|discriminate].
+  rewrite gen_Predicate_sat_ok.
+  match goal with |- context [if ?c then _ else _] => destruct c end.
+  - match goal with |- context [py_for ?s ?b ?a] => destruct (py_for s b a) end; [|discriminate].
+    intros E. injection E as <- _. cbn. rewrite (gen_Predicate_update_op _ _ _ _ _ EU). repeat split.
+  - match goal with |- context [if ?c then _ else _] => destruct c end.
+    + match goal with |- context [py_for ?s ?b ?a] => destruct (py_for s b a) end; [|discriminate].
+      intros E. injection E as <- _. cbn. rewrite (gen_Predicate_update_op _ _ _ _ _ EU). repeat split.
+    + intros E. injection E as <- _. cbn. rewrite (gen_Predicate_update_op _ _ _ _ _ EU). repeat split.
+Qed.
+
 (* a sequence of update() calls of a binary class is bin_run_g *)
 Lemma bin_class_run {St : Type} (upd : St -> psig -> psig -> option (St * psig)) (abs : St -> @ostate VS T) (f : V -> V -> V) :
   (forall st b1 b2, sim abs (upd st b1 b2) = bin_update_g T tltb teqb f (abs st) b1 b2) ->
@@ -534,6 +765,27 @@ Lemma gen_resets :
 Proof. repeat split; intros st; destruct st; reflexivity. Qed.
 
 End Gen.
+
+(* the kind the generated IA predicate selects from its attributes is the one of the visitor model (IA.pk_impl), when the attributes are
+   what the IA visitor passes: node.in_vars / node.out_vars of the predicate node *)
+Lemma ia_kind_pk_impl {VS : Val} (io : nat -> bool) (sem : semantics) (f g : formula) :
+  ia_kind sem (in_vars_impl io f ++ in_vars_impl io g) (out_vars_impl io f ++ out_vars_impl io g) = pk_impl io sem f g.
+Proof.
+  unfold ia_kind, pk_impl.
+  assert (E : forall l : list nat, negb (py_truthy l) = is_nil l) by (intros [|x l]; reflexivity).
+  rewrite !E. destruct sem; cbn [sem_eqb andb orb];
+    destruct (is_nil (out_vars_impl io f ++ out_vars_impl io g)); destruct (is_nil (in_vars_impl io f ++ in_vars_impl io g)); reflexivity.
+Qed.
+
+(* the constant on the stamps tz is const_update (DenseOnlineFold.v) *)
+Definition Constant_abs {VS : Val} (st : Constant_state tz) : @cstate VS := {| c_val := Constant_val st; c_first := Constant_is_first_sample st |}.
+Definition Constant_conc {VS : Val} (st : @cstate VS) : Constant_state tz := mk_Constant_state (c_val st) (c_first st).
+Lemma gen_Constant_update_ok {VS : Val} (AR : Arith VS) (st : Constant_state tz) :
+  gen_Constant_update AR tz tlt teq (T 0) TInf st =
+  match const_update (Constant_abs st) tt with None => None | Some (st', o) => Some (Constant_conc st', o) end.
+Proof. rewrite gen_Constant_update_gen. unfold const_update, Constant_abs, Constant_conc. destruct st as [v [|]]; reflexivity. Qed.
+Lemma gen_Constant_init {VS : Val} (c : V) : Constant_abs (Constant_init tz c) = const_init c.
+Proof. reflexivity. Qed.
 
 (* ================================================================== *)
 (* the top theorem                                                     *)
@@ -581,6 +833,23 @@ Theorem dense_online_gen_refines :
   (* since *)
   (forall st b1 b2, gen_Since_update AR T tltb teqb st b1 b2 =
      match since_update T tltb (Since_abs T st) (b1, b2) with None => None | Some (st', o) => Some (Since_conc T st', o) end) /\
+  (* predicate (STL): update and sat; predicate (IA-STL): update *)
+  (forall st l r, option_map (fun p => (Predicate_abs T (fst p), snd p)) (gen_Predicate_update AR T tltb teqb st l r)
+                  = pred_update_g AR T tltb teqb (Predicate_comparison_op st) (Predicate_abs T st) l r) /\
+  (forall st l r, gen_Predicate_sat AR T tltb teqb st l r
+                  = Some (st, sat_scan AR T (Predicate_comparison_op st) None (Predicate_subtraction_output st))) /\
+  (forall st l r, option_map (fun p => (IAPredicate_abs T (fst p), snd p)) (gen_IAPredicate_update AR T tltb teqb st l r)
+                  = pred_update_ia AR T tltb teqb (ia_kind (IAPredicate_semantics st) (IAPredicate_in_vars st) (IAPredicate_out_vars st))
+                      (Predicate_comparison_op (IAPredicate_base st)) (IAPredicate_abs T st) l r) /\
+  (forall st l r st' o, gen_IAPredicate_update AR T tltb teqb st l r = Some (st', o) ->
+     IAPredicate_semantics st' = IAPredicate_semantics st /\ IAPredicate_in_vars st' = IAPredicate_in_vars st /\
+     IAPredicate_out_vars st' = IAPredicate_out_vars st /\
+     Predicate_comparison_op (IAPredicate_base st') = Predicate_comparison_op (IAPredicate_base st)) /\
+  (forall c, Predicate_abs T (Predicate_init T c) = pred_init) /\
+  (* constant *)
+  (forall tzero tinf st, gen_Constant_update AR T tltb teqb tzero tinf st =
+     Some (mk_Constant_state (Constant_val st) false,
+           if Constant_is_first_sample st then [(tzero, Constant_val st); (tinf, Constant_val st)] else [])) /\
   (* __init__ and the functions handed to intersection() *)
   And_abs T (And_init T) = ostate0 /\ Since_abs T (Since_init T) = since_init /\ Once_prev (Once_init T) = bot /\
   Historically_prev (Historically_init T) = top /\ Always_prev (Always_init T) = top /\
@@ -598,8 +867,32 @@ Proof.
   - apply gen_Exp_update_ok. - apply gen_Ln_update_ok.
   - apply gen_Once_update_ok. - apply gen_Historically_update_ok. - apply gen_Always_update_ok.
   - apply gen_Since_update_ok.
+  - apply gen_Predicate_update_ok. - apply gen_Predicate_sat_ok. - apply gen_IAPredicate_update_ok.
+  - eapply gen_IAPredicate_update_frame; eassumption.
+  - apply gen_Constant_update_gen.
 Qed.
 Print Assumptions dense_online_gen_refines.
+
+(* the IA-STL predicate as generated: its update is pred_update_ia with the kind its attributes select, and that kind is the one of the
+   visitor model IA.pk_impl when the attributes are node.in_vars / node.out_vars of the predicate node *)
+Theorem dense_online_gen_ia_predicate :
+  forall (VS : Val) (AR : Arith VS) (T : Type) (tltb teqb : T -> T -> bool),
+  (forall st l r, option_map (fun p => (IAPredicate_abs T (fst p), snd p)) (gen_IAPredicate_update AR T tltb teqb st l r)
+                  = pred_update_ia AR T tltb teqb (ia_kind (IAPredicate_semantics st) (IAPredicate_in_vars st) (IAPredicate_out_vars st))
+                      (Predicate_comparison_op (IAPredicate_base st)) (IAPredicate_abs T st) l r) /\
+  (forall c sem iv ov, IAPredicate_abs T (IAPredicate_init T c sem iv ov) = pred_init /\
+                       Predicate_comparison_op (IAPredicate_base (IAPredicate_init T c sem iv ov)) = c /\
+                       IAPredicate_semantics (IAPredicate_init T c sem iv ov) = sem /\
+                       IAPredicate_in_vars (IAPredicate_init T c sem iv ov) = iv /\ IAPredicate_out_vars (IAPredicate_init T c sem iv ov) = ov) /\
+  (forall (io : nat -> bool) (sem : semantics) (f g : formula),
+     ia_kind sem (in_vars_impl io f ++ in_vars_impl io g) (out_vars_impl io f ++ out_vars_impl io g) = pk_impl io sem f g).
+Proof.
+  intros VS AR T tltb teqb. split; [|split].
+  - apply gen_IAPredicate_update_ok.
+  - intros c sem iv ov. repeat split.
+  - apply ia_kind_pk_impl.
+Qed.
+Print Assumptions dense_online_gen_ia_predicate.
 
 Lemma omap_snd_sim {A B C : Type} (abs : A -> B) (r : option (A * C)) :
   option_map snd (option_map (fun p => (abs (fst p), snd p)) r) = option_map snd r.
